@@ -252,6 +252,9 @@ def iterates(fnode, expr, what, depth=0):
         return True
     if isinstance(expr, ast.Call) and isinstance(expr.func, ast.Name) and expr.func.id in ("enumerate", "zip", "list", "tuple", "iter") and expr.args:
         return iterates(fnode, expr.args[0], what, depth + 1)
+    if isinstance(expr, ast.Call) and isinstance(expr.func, ast.Name) and expr.func.id == "range" and len(expr.args) == 1 \
+            and isinstance(expr.args[0], ast.Call) and isinstance(expr.args[0].func, ast.Name) and expr.args[0].func.id == "len" and expr.args[0].args:
+        return iterates(fnode, expr.args[0].args[0], what, depth + 1)      # for i in range(len(xs)): the i-th iteration handles xs[i]
     if isinstance(expr, ast.Name):
         d = _single_def(fnode, expr.id)
         return d is not None and iterates(fnode, d, what, depth + 1)
@@ -660,7 +663,7 @@ def flush_page_contract():
         o = c.st.obj(c.args[buf].ref)
         return o.data.length == 0 if o.kind == "alist" else z3.BoolVal(o.kind == "list" and not o.data)
 
-    return FnContract(
+    c_ = FnContract(
         target=f"{RTF}::_RtfParser._strip_rtf_full_with_pages.<locals>.{name}",
         params=[("self", p_obj("_RtfParser", {"pages": p_alist("str")})), (buf, p_alist("str"))],
         ensures=[("every-page-break-opens-exactly-one-page-entry", one_entry), ("earlier-pages-kept-in-place", kept),
@@ -669,6 +672,8 @@ def flush_page_contract():
         modifies=("self", buf),
         note="closure verified with its free variables as parameters",
     )
+    c_.oid_name = "_RtfParser._strip_rtf_full_with_pages.<locals>.flush_page"     # ids do not depend on the closure's current name
+    return c_
 
 
 RESUB = z3.Function("re_sub", S, S, S, S)     # pattern.sub(repl, s): PY-RE total, uninterpreted
@@ -844,7 +849,10 @@ class C03Executor(ET.ETreeMixin, X.UnitsExecutor):
         lf = getattr(c, "loop_finder", None) if c is not None else None
         if lf is not None and self.inline_depth == 0:
             fnode = self.cur_fn_stack[-1] if self.cur_fn_stack else None
-            return lf(self, fnode, node) if fnode is not None else None
+            sp = lf(self, fnode, node) if fnode is not None else None
+            if sp is not None:
+                self._lf_hits = getattr(self, "_lf_hits", 0) + 1
+            return sp
         return super().loop_spec(node)
 
     def exc_any(self, st, site, also=()):
@@ -1085,11 +1093,37 @@ def _safe(fn):
     return g
 
 
+def _has_contract_loop(ex, c, fnode):
+    for n in ast.walk(fnode):
+        if isinstance(n, (ast.For, ast.While)) and c.loop_finder(ex, fnode, n) is not None:
+            return True
+        if isinstance(n, ast.YieldFrom) and isinstance(n.value, (ast.GeneratorExp, ast.ListComp)) and len(n.value.generators) == 1:
+            g = n.value.generators[0]
+            loop = ast.For(g.target, g.iter, [ast.Pass()], [])
+            if c.loop_finder(ex, fnode, loop) is not None:
+                return True
+    return False
+
+
 def _make_safe(c):
     if c.assumed:
         return
     c.requires, c.hyps = _safe(c.requires), _safe(c.hyps)
     c.ensures = [(l, _safe(f)) for (l, f) in c.ensures]
+    if getattr(c, "loop_finder", None) is not None:
+        h0 = c.hyps
+
+        def hyps(cx, h0=h0, c=c):
+            # the invariant is stated for the loop that walks the source list; code that no longer has such a loop (moved into a
+            # helper, became a while loop, ...) is outside what this contract can follow: the FUNCTION is OUT-OF-SUBSET and the
+            # native replayer decides
+            fnode = cx.ex.module.functions.get(c.target.split("::")[1]) if cx.ex.contract is c else None
+            if fnode is not None and not _has_contract_loop(cx.ex, c, fnode):
+                from pyvc.ops import Unsupported
+                raise Unsupported("the loop over the source sequence, for which the invariant is stated, was not found in this function")
+            return h0(cx) if h0 is not None else z3.BoolVal(True)
+        hyps._c03_safe = True
+        c.hyps = hyps
     for spec in list(c.loops.values()):
         spec.inv = _safe(spec.inv)
     lf = getattr(c, "loop_finder", None)
